@@ -5,6 +5,7 @@ Exit codes of a check: 0 = property held on everything explored (KNOWN-FINDING
 lines may have been printed); 1 = VIOLATION (reproduced, real-code behaviour);
 2 = inconclusive (tool failure, time-out, dead driver, vacuous run)."""
 import json
+import uuid
 import os
 import re
 import shutil
@@ -135,7 +136,7 @@ def tlc(cwd, module, cfg, workers=None, timeout=600, simulate=None, depth=None, 
         dfs=False, coverage=False, extra_args=(), env=None, xss=None, heap=None, dump_dot=None):
     """Run TLC in `cwd` (a staged copy of spec/). Returns TlcResult. Never raises on a TLC
     'error' (that is data); raises Inconclusive on time-out."""
-    meta = os.path.join(cwd, "meta-%s-%d" % (module, int(time.time() * 1000) % 10**9))
+    meta = os.path.join(cwd, "meta-%s-%d-%s" % (module, int(time.time() * 1000) % 10**9, uuid.uuid4().hex[:8]))
     args = ["java", "-XX:+UseParallelGC"]
     if heap:
         args.append("-Xmx" + heap)
